@@ -333,8 +333,20 @@ def check_and_load_args(args, parser):
         parser.print_usage()
         exit(-1)
 
+    if not args.resume:
+        clean_progress_markers(args)
     save_params(args)
     return args
+
+
+# A new (not resumed) run must not inherit progress markers left by a run that was killed in the same folder:
+# once the new parameters are saved, --resume would take the files those markers vouch for as results of this run.
+def clean_progress_markers(args):
+    for sample in args.input_data.samples:
+        for base_name in [sample.out_raw_file, sample.read_group_file]:
+            for marker in glob.glob(glob.escape(base_name) + "_*"):
+                if marker.endswith(("_lock", "_collected", "_processed")):
+                    os.remove(marker)
 
 
 def load_previous_run(args):
